@@ -128,6 +128,21 @@ def run(ctx):
                 if ["chargeconj", new, "anti-" + new] in doc and "anti-" + new not in names:
                     res.violation("a copied table is not usable as the source of a CDecay", dict(case0, copy=[new, old]), impl=names,
                                   clause="CopyDecay as CDecay source")
+        # the switch for charge-conjugate decays concerns CDecay only: with it off, copies are made all the same
+        try:
+            q0 = DecFileParser.from_string(text)
+            q0.parse(include_ccdecays=False)
+            tabs0 = impl_tables(q0)
+        except Exception as e:
+            tabs0 = None
+        if tabs0 is not None:
+            d0 = {}
+            for m_, ls_ in tabs0:
+                d0.setdefault(m_, ls_)
+            for new, old in copies:
+                if old in d0 and (new not in d0 or (new not in [s[1] for s in doc if s[0] == "decay"] and d0[new] != d0[old])):
+                    res.violation("with charge-conjugate decays disabled a CopyDecay statement does not give its table", dict(case0, copy=[new, old], include_ccdecays=False),
+                                  impl=list(d0), clause="CopyDecay")
         trees = list(p._parsed_decays)
         idsets = [reachable_ids(t) for t in trees]
         for a in range(len(trees)):
